@@ -110,6 +110,12 @@ Theorem C05_delete_inverts_apply_above_finalized_partial : forall db c diff_enc 
            (apply_writes (apply_batch db c diff_enc prune b events fh rt keep) db)) k = lookup db k.
 Proof. exact delete_inverts_apply_above_finalized. Qed.
 
+(* deleting blocks never touches the finalized-height marker (so it cannot be lowered by a delete; that an apply never
+   lowers it is a property of the caller, which passes max(current, maxHeightPrecommitted): checked by the harness) *)
+Theorem C05_delete_keeps_marker : forall db c b st, sorted db -> cache_pref [pfxState] c ->
+  lookup (apply_writes (delete_batch (diff_of c) b st) db) kFinalized = lookup db kFinalized.
+Proof. exact delete_keeps_marker. Qed.
+
 (* removed blocks are kept retrievable as temporary blocks when requested *)
 Theorem C05_temp_block_saved : forall db b, sorted db ->
   lookup (apply_writes (remove_block b true) db) (kTemp (b_height b)) = Some (b_block b).
